@@ -119,7 +119,7 @@ func (p *Prog) MainFuncs() []*ssa.Function {
 }
 
 func (p *Prog) tid(t types.Type) int {
-	k := types.TypeString(t, nil)
+	k := reAny.ReplaceAllString(types.TypeString(t, nil), "interface{}")
 	if id, ok := p.tids[k]; ok {
 		return id
 	}
